@@ -164,6 +164,7 @@ def gen_fancy(rng, malformed=False):
     """one scenario for the display state: (line, meta).  Protocol-respecting unless `malformed`."""
     hx = lambda b: hexs(b)
     ops, shown, clock, nid = [], [], 0, 1
+    last_counts = [0] * 6                          # Want Ready Queued Running Done Failed, as last passed to update()
     meta = {"valid_text": True, "prints": [], "malformed": malformed}
     descs = {}
     wide = rng.random() < 0.4                      # often more than eight commands on display
@@ -191,13 +192,14 @@ def gen_fancy(rng, malformed=False):
             ops.append("F %d %s %s %d %d %s" % (i, "~" if d is None else hx(d), hx(c), rng.random() < 0.2, rng.choice([0, 0, 0, 1, 2]), hx(out)))
             shown.remove(i)
         elif r < 0.7:
-            ops.append("U " + " ".join(str(rng.choice([0, 1, 2, 7, 100, 12345])) for _ in range(6)))
+            last_counts = [rng.choice([0, 1, 2, 7, 100, 12345]) for _ in range(6)]
+            ops.append("U " + " ".join(str(x) for x in last_counts))
         elif r < 0.73:
             ops.append("L " + hx(fancy_text(rng)))
         else:
             cols = rng.choice([10, 11, 12, 13, 14, 15, 20, 40, 79, 80, 81, 120, 300])
             ops.append("P %d %d" % (clock, cols))
-            meta["prints"].append({"cols": cols, "shown": len(shown)})
+            meta["prints"].append({"cols": cols, "shown": len(shown), "counts": list(last_counts)})
     if malformed:
         k = rng.choice(["O", "F", "S", "P"])
         if k == "O":
@@ -212,7 +214,7 @@ def gen_fancy(rng, malformed=False):
     return "v=%d %s" % (rng.random() < 0.1, ";".join(ops)), meta
 
 
-STATUS_RE = re.compile(rb"\[([=\- ]*)\] \d+/\d+ done, (\d+ failed, )?(\d+)/\d+ running$")
+STATUS_RE = re.compile(rb"\[([=\- ]*)\] (\d+)/(\d+) done, (\d+ failed, )?(\d+)/\d+ running$")
 
 
 def fancy_monitor(run, line, meta, res):
@@ -249,7 +251,14 @@ def fancy_monitor(run, line, meta, res):
         bar = STATUS_RE.search(lines[0]).group(1)      # (the line may start with pending text: '\\r\\x1b[J', a logged message without newline)
         if len(bar) != 40:
             run.report_failure(None, "the bar is %d wide, not 40" % len(bar), where)
-        shown_count = int(STATUS_RE.search(lines[0]).group(3))
+        mm = STATUS_RE.search(lines[0])
+        if not meta["malformed"] and pr.get("counts") is not None:
+            cts = pr["counts"]
+            if (int(mm.group(2)), int(mm.group(3))) != (cts[4] + cts[5], sum(cts)):
+                run.report_failure(None, "the status line says %s/%s done; the counts last reported are %d finished of %d"
+                                   % (mm.group(2).decode(), mm.group(3).decode(), cts[4] + cts[5], sum(cts)), where)
+                return
+        shown_count = int(mm.group(5))
         if not meta["malformed"] and shown_count != pr["shown"]:
             run.report_failure(None, "the status line says %d running while %d commands were started and have not finished" % (shown_count, pr["shown"]), where)
             return
